@@ -16,7 +16,8 @@ from qgv import core
 from qgv import c01lib as L
 
 LAYER_BACKENDS = ["standard", "efficient", "ones"]
-CLASS = {"standard": "StandardBackend", "efficient": "EfficientBackend", "ones": "BackendForOnes", "binary": "BinaryBackend"}
+CLASS = {"standard": "StandardBackend", "efficient": "EfficientBackend", "ones": "BackendForOnes", "binary": "BinaryBackend",
+         "grid": "Circuit.statevector"}
 
 
 # ------------------------------------------------------------------------------------------------ domain of the property
@@ -614,6 +615,25 @@ def main(ctx):
         "exact comparison uses integer-valued complex128 data with all partial sums below 2^50; floating-point rounding "
         "is outside the theorems",
     ]
+    # ---------------------------------------------------------------- (G) Circuit.statevector: the product of the column krons
+    n_grid = 0
+    for fam, case in vcs:
+        n = case["n"]
+        codes = [L.codes_of(case, i) for i in range(len(case["layers"]))]
+        if n > 8 or not codes or len(case["psi"]) != 2 ** n or not all(L.is_wf(c, n) for c in codes):
+            continue
+        want = L.canon_vec(L.oracle_factor(case))["ok"]
+        im, raw, untouched = L.run_layers("grid", case)
+        ctx.count(); n_grid += 1
+        bad = classify("grid", im, want)
+        if bad is None and not untouched:
+            bad = ({"backend": "Circuit.statevector", "kind": "input-modified"}, "the input vector was modified")
+        if bad:
+            sig, what = bad
+            fail(dict(sig, backend="Circuit.statevector"), n * 100 + len(codes),
+                 {"mode": "value", "backend": "grid", "case": L.case_to_json(case), "failure": what},
+                 f"Circuit(n={n}, depth={len(codes)}).statevector on columns {codes}: {what}")
+    cov["grid_statevector_cases"] = n_grid
     # ---------------------------------------------------------------- (R) one backend object, several calls
     import random as _random
     n_reuse = 0
